@@ -103,10 +103,11 @@ class Simulation:
         # Compute new otherwise. The model is shared with the caller, who may have
         # changed its parameters since; leave them as they are found
         current = self.model.get_parameter_values()
+        raw_args: list[pd.DataFrame] = []
         try:
             for res, p in zip(self.raw_variables, self.raw_parameters, strict=True):
                 self.model.update_parameters(p)
-                self.raw_args.append(
+                raw_args.append(
                     self.model.get_args_time_course(
                         variables=res,
                         include_variables=True,
@@ -121,6 +122,8 @@ class Simulation:
                 )
         finally:
             self.model.update_parameters(current)
+        # Only remember a complete table, such that an interrupted read starts over
+        self.raw_args = raw_args
         return self.raw_args
 
     def _select_data(
